@@ -143,7 +143,7 @@ func c10Exec(hist []c10Op) *c10Result {
 	var ids []string
 	accepted := map[string]bool{}
 	for step, op := range hist {
-		before := env.bookkeeping()
+		before := c10Sets(env) // (the write-only name-mapping table is not behaviour: see c10Sets)
 		if !(op.Kind == "create" && op.Fault > 0) {
 			// a create that fails half way because the store failed may leave store records behind; that is judged
 			// by C11 (cleanup), here only the duplicate-detection bookkeeping must be as before
@@ -190,7 +190,7 @@ func c10Exec(hist []c10Op) *c10Result {
 		case "restart":
 			env.Restart()
 		}
-		after := env.bookkeeping()
+		after := c10Sets(env)
 		if !(op.Kind == "create" && op.Fault > 0) {
 			after += "\n" + env.storeDump()
 		}
@@ -387,9 +387,9 @@ func TestVerifC10Tasks(t *testing.T) {
 		}
 		return
 	}
-	depth := 3
+	depth := 4
 	if ev.Thorough() {
-		depth = 4
+		depth = 5
 	}
 	res.Bounds["depth"] = depth
 	res.Rule = fmt.Sprintf("BFS over histories of {create(spec) for %d specification shapes (legacy a|b|*, db in {default, db1, *} x collection in {a, *}, with user-role flag, with name mapping), create with the n-th store call failing (n=1..6), delete(task i), restart} on one target with at most 3 tasks; each history replayed on a fresh real MetaCDC over the real etcd stores on fakeetcd; after every operation: accepted = persisted = in-memory task set, for every (db, collection) in {default, db1, db2} x {a, b, c} at most one task selects it, each task selects its specification minus its exclusions, data path and DDL path agree, a rejected request leaves bookkeeping and store byte-identical, live bookkeeping (as sets) equals a fresh reload of a copy of the store; states deduplicated on bookkeeping + persisted tasks; non-trivial = states reached through a rejected request or containing exclusions", len(c10Specs))
